@@ -185,30 +185,40 @@ def rule_claim_flag(ctx: RuleContext, p: Program, rid: str) -> None:
     n += 1
     ok = False
     if len(lp) == 1:
-        bad = [False]
         kept = None
         for a in walk_no_nested(un.node):
             if isinstance(a, ast.Assign) and isinstance(a.targets[0], ast.Subscript) and norm(a.targets[0].value) == 'self._repeated.items':
                 kept = norm(a.value)
         tv = norm(lp[0].target)
+        # every list the loop variable is appended to; one is `kept`, the other collects the comments to unclaim
+        appended = {norm(c.func.value) for c in ast.walk(lp[0]) if isinstance(c, ast.Call) and isinstance(c.func, ast.Attribute)
+                    and c.func.attr == 'append' and c.args and norm(c.args[0]) == tv}
+        dropped = appended - {kept}
+        # flags cleared for the loop variable inside the scan, or for every element of the dropped list in a later loop
+        later = {norm(l.iter) for l in walk_no_nested(un.node) if isinstance(l, ast.For) and l is not lp[0] and any(
+            isinstance(a, ast.Assign) and isinstance(a.targets[0], ast.Attribute) and a.targets[0].attr == 'claimed'
+            and norm(a.targets[0].value) == norm(l.target) and isinstance(a.value, ast.Constant) and a.value.value is False
+            for a in ast.walk(l))}
 
         def transfer3(s: tuple[bool, bool], ev: tuple[Any, ...]) -> Iterable[tuple[bool, bool]]:
-            appended, cleared = s
+            k, u = s
             if ev[0] == 'eval' and isinstance(ev[1], ast.Call) and isinstance(ev[1].func, ast.Attribute) \
-                    and ev[1].func.attr == 'append' and norm(ev[1].func.value) == kept and norm(ev[1].args[0]) == tv:
-                return [(True, cleared)]
+                    and ev[1].func.attr == 'append' and ev[1].args and norm(ev[1].args[0]) == tv:
+                if norm(ev[1].func.value) == kept:
+                    return [(True, u)]
+                if norm(ev[1].func.value) in later:
+                    return [(k, True)]
             if ev[0] == 'store' and isinstance(ev[1], ast.Attribute) and ev[1].attr == 'claimed' and norm(ev[1].value) == tv:
-                return [(appended, True)]
+                return [(k, True)]
             return [s]
 
-        inner = Walker(transfer3)
         from ..walker import Outcome
         o = Outcome()
-        res = inner.block(lp[0].body, {(False, False)}, o) | o.continued
-        ok = kept is not None and all(a != c for a, c in res) and bool(res)
+        res = Walker(transfer3).block(lp[0].body, {(False, False)}, o) | o.continued
+        ok = kept is not None and all(a != c for a, c in res) and bool(res) and len(dropped) <= 1
     ctx.check(ok, rid, 'models.internal.interleaving_comments:RepeatedNodeWithInterleavingCommentsWrapper.unclaim_interleaving_comments',
               'kept xor unclaimed per item', 'an item can be both unclaimed and kept in items (or neither) in one iteration', un.where,
-              note='each item is either kept or has its flag cleared, never both')
+              note='each item is either kept or unclaimed (flag cleared in the scan or in a later loop over the collected comments), never both')
     if n < 7:
         raise AnalysisError('CLAIM-FLAG: anchors missing')
 
